@@ -76,7 +76,7 @@ theorem single_good (s : Str) : SortedLcp [s] { out := [s], lcp := [0] } :=
 /-- gluing two sorted blocks: the seam value is the LCP of the neighbours -/
 theorem glue_good {A B : List Str} {ra rb : Res} (ha : SortedLcp A ra) (hb : SortedLcp B rb) (hne : B ≠ [])
     (hcross : ∀ a ∈ A, ∀ b ∈ B, strLe a b = true) (v : Nat)
-    (hv : A ≠ [] → v = lcp ((ra.out.getLast?).getD []) ((rb.out.head?).getD [])) :
+    (hv : A ≠ [] → v = lcpT (lcp ((ra.out.getLast?).getD []) ((rb.out.head?).getD []))) :
     SortedLcp (A ++ B) { out := ra.out ++ rb.out,
                          lcp := ra.lcp ++ rb.lcp.set 0 (if A = [] then (rb.lcp.head?).getD 0 else v) } := by
   obtain ⟨pa, sa, la, ca⟩ := ha
